@@ -1,15 +1,18 @@
 (* C16 - onNote/onCycle/onTime reservations and .Random act on the right notes and ticks.
    Statements only; proofs are `exact <lemma>`. Model: model/Reserve.v (function-for-function after
-   song.rs), f32 through model/F32.v; specification vocabulary: spec/ReserveSpec.v. *)
+   song.rs: calc_{v,t,qlen,o,l}_on_note, calc_v_on_time, write_cc_on_time, write_pb_on_time,
+   set/write_cc_on_note, rand, calc_rand_value), f32 through model/F32.v; specification vocabulary
+   (ticks, seg_starts, locate, ramp_spec, cc_notes): spec/ReserveSpec.v. `run_calls f k defs` calls
+   the method once per note, `defs` being the value each note would have without a reservation. *)
 From Sakura.Model Require Import Base Event F32 Reserve.
 From Sakura.Spec Require Import ReserveSpec.
 From Sakura.Proofs Require Import ReserveP.
+From Coq Require Import Sorted.
 
-(* x.onNote(v1..vn), x in v/q/t/o/l (`w`): over ANY value list vs and ANY run of following notes (one
-   default per note, `defs`): note i < |vs| gets vs[i]; from note |vs| on the notes get their own
-   default and the reservation is cleared (by the first such note). What stays in the track: the last
-   applied value is stored in velocity/qlen/timing/octave (store_last), nothing is stored for l; no
-   other field changes. *)
+(* x.onNote(v1..vn), x in v/q/t/o/l (`w`), for ANY value list vs and ANY run of following notes: note
+   i < |vs| gets vs[i]; from note |vs| on every note gets its own default and the reservation is
+   cleared (by the first such note). What stays in the track: the last applied value is stored in
+   velocity/qlen/timing/octave, nothing is stored for l (store_last); no other field changes. *)
 Theorem C16_on_note : forall (w : which) (k : track) (vs defs : list Z),
   vs <> [] -> get_res w k = mkOnres (Some vs) 0 false ->
   run_calls (calc_on_note w) k defs =
@@ -19,4 +22,193 @@ Theorem C16_on_note : forall (w : which) (k : track) (vs defs : list Z),
         else mkOnres None 0 false)).
 Proof. exact on_note_spec. Qed.
 
+Theorem C16_on_note_nth : forall (w : which) (k : track) (vs defs : list Z) (i : nat),
+  vs <> [] -> get_res w k = mkOnres (Some vs) 0 false -> (i < length defs)%nat ->
+  nth i (fst (run_calls (calc_on_note w) k defs)) 0 = if (i <? length vs)%nat then nth i vs 0 else nth i defs 0.
+Proof. exact on_note_nth. Qed.
+
+(* x.onCycle: note i gets vs[i mod |vs|] for every i; the reservation is never cleared *)
+Theorem C16_on_cycle : forall (w : which) (k : track) (vs defs : list Z),
+  vs <> [] -> get_res w k = mkOnres (Some vs) 0 true ->
+  let rs := map (fun i => nth (i mod length vs) vs 0) (seq 0 (length defs)) in
+  exists j, (j <= length vs)%nat /\
+  run_calls (calc_on_note w) k defs = (rs, set_res w (store_last w k rs) (mkOnres (Some vs) (Z.of_nat j) true)).
+Proof. exact on_cycle_spec. Qed.
+
+(* no reservation (never made, used up, or cancelled by a plain v/q/t/o/l, whose runner arm sets the list
+   to None): the note takes its own default and the track is unchanged *)
+Theorem C16_cancel : forall (w : which) (k : track) (def : Z),
+  r_list (get_res w k) = None -> calc_on_note w k def = (def, k).
+Proof. exact cancel_spec. Qed.
+
+(* the runner arms: x.onNote / x.onCycle install the list at index 0 (the hypothesis of C16_on_note / C16_on_cycle);
+   a plain v/q/t/o/l clears the reservation (the hypothesis of C16_cancel), v also the v.onTime ramp *)
+Theorem C16_arms : forall (w : which) (cyc : bool) (ia : list Z) (v : Z) (s : rstate),
+  get_res w (rs_k (exec_cmd s (ROnNote w cyc ia))) = mkOnres (Some ia) 0 cyc
+  /\ r_list (get_res w (rs_k (exec_cmd s (RPlain w v)))) = None
+  /\ (w = WV -> tr_v_on_time (rs_k (exec_cmd s (RPlain w v))) = None).
+Proof. intros w cyc ia v s. split; [apply on_note_arm | apply plain_arm_cancels]. Qed.
+
+(* Controller.onNote: with pending lists l (all at index 0), the notes starting at `starts` emit, note j
+   writing the j-th value of every list that still has one (in reservation order, at the note's start, on
+   the track's channel); afterwards exactly the lists with more than |starts| values remain, advanced *)
+Theorem C16_cc_on_note : forall (k : track) (starts : list Z),
+  all_at 0 (tr_cc_on_note k) ->
+  tr_events (run_cc_notes k starts) = tr_events k ++ cc_notes (tr_channel k) 0 (map cc_view (tr_cc_on_note k)) starts
+  /\ (starts <> [] ->
+      tr_cc_on_note (run_cc_notes k starts) =
+        map (adv (length starts)) (filter (alive (length starts)) (tr_cc_on_note k))).
+Proof. exact cc_on_note_spec. Qed.
+
+Theorem C16_cc_on_note_set : forall (k : track) (no : Z) (ia : list Z),
+  tr_cc_on_note (set_cc_on_note k no ia) = filter (fun c => negb (cc_no c =? no)) (tr_cc_on_note k) ++ [mkCC no ia 0]
+  /\ tr_cc_on_note_wave (set_cc_on_note k no ia) = filter (fun c => negb (cc_no c =? no)) (tr_cc_on_note_wave k)
+  /\ tr_events (set_cc_on_note k no ia) = tr_events k
+  /\ (all_at 0 (tr_cc_on_note k) -> all_at 0 (tr_cc_on_note (set_cc_on_note k no ia))).
+Proof. exact set_cc_on_note_spec. Qed.
+
+(* Controller.onTime(lo,hi,len,...): segment s starts where segment s-1 ended (seg_starts; a segment of
+   length <= 0 takes no time), and writes one event per tick of `ticks freq len` at start + j with the
+   clamped interpolated value; freq is the configured frequency, anything below 1 counting as 1 *)
+Theorem C16_ramp_ticks : forall (k : track) (cc : Z) (ia : list Z),
+  tr_events (write_cc_on_time k cc ia) =
+  tr_events k ++ ramp_spec (fun t v => ev_cc t (tr_channel k) cc v) ramp_value (Z.max 1 (tr_freq k)) 127
+                           (tr_timepos k) (triples ia).
+Proof. exact cc_on_time_spec. Qed.
+
+(* pitch bend: the same with 14-bit values (PB: lo+8192, p: lo*128), sampled every timebase/32 ticks *)
+Theorem C16_pb_ramp_ticks : forall (k : track) (is_big : Z) (ia : list Z) (tb : Z),
+  tr_events (write_pb_on_time k is_big ia tb) =
+  tr_events k ++ ramp_spec (fun t v => ev_pitch_bend t (tr_channel k) v) ramp_value (pb_freq tb) 16383
+                           (tr_timepos k) (map (pb_segment is_big) (triples ia))
+  /\ 1 <= pb_freq tb /\ (32 <= tb -> pb_freq tb = tb / 32).
+Proof. intros k is_big ia tb. split; [apply pb_on_time_spec | apply pb_freq_ge1]. Qed.
+
+(* the ticks of a segment are exactly the j with 0 <= j < len and freq | j, each once, ascending *)
+Theorem C16_ticks_exact : forall freq len : Z, 1 <= freq ->
+  (forall j, In j (ticks freq len) <-> 0 <= j < len /\ (freq | j)) /\ StronglySorted Z.lt (ticks freq len).
+Proof. exact ticks_exact. Qed.
+
+(* the first event of every segment sits on the segment start with value clamp(lo)
+   (f32 conversions evaluated by the kernel on the stated range, RB = 65536) *)
+Theorem C16_ramp_start : forall (mk : Z -> Z -> event) (b freq maxv lo hi len : Z),
+  1 <= freq -> - RB <= lo <= RB -> - RB <= hi - lo <= RB -> 0 < len <= RB ->
+  exists rest,
+    map (fun j => mk (b + j) (value_range 0 (ramp_value lo hi j len) maxv)) (ticks freq len)
+    = mk b (value_range 0 lo maxv) :: rest.
+Proof. exact ramp_start_spec. Qed.
+
+(* every value written is a 7-bit value (14-bit for bend), on the track's channel *)
+Theorem C16_ramp_range : forall (k : track) (cc : Z) (ia : list Z), exists new,
+  tr_events (write_cc_on_time k cc ia) = tr_events k ++ new /\
+  Forall (fun e => e_type e = ControllChange /\ e_ch e = tr_channel k /\ e_v1 e = cc /\ 0 <= e_v2 e <= 127) new.
+Proof. exact cc_on_time_range. Qed.
+Theorem C16_pb_ramp_range : forall (k : track) (is_big : Z) (ia : list Z) (tb : Z), exists new,
+  tr_events (write_pb_on_time k is_big ia tb) = tr_events k ++ new /\
+  Forall (fun e => e_type e = PitchBend /\ e_ch e = tr_channel k /\ 0 <= e_v1 e <= 16383) new.
+Proof. exact pb_on_time_range. Qed.
+
+(* v.onTime: a note at relative time cur = timepos - start gets the interpolated value of the segment
+   that contains cur (segments laid end to end), its own default outside; at or past the end the
+   reservation is cleared. (isize_min is the code's "no value" sentinel.) *)
+Theorem C16_v_on_time : forall (k : track) (ia : list Z) (def : Z),
+  tr_v_on_time k = Some ia -> lens_nonneg (triples ia) ->
+  let cur := tr_timepos k - tr_v_on_time_start k in
+  calc_v_on_time k def =
+    (match locate (triples ia) cur with
+     | Some (lo, hi, len, j) => let v := ramp_value lo hi j len in if v =? isize_min then def else v
+     | None => def
+     end,
+     if seg_total (triples ia) <=? cur then set_v_on_time k None (-1) else k).
+Proof. exact v_on_time_spec. Qed.
+
+Theorem C16_v_on_time_locate : forall (segs : list (Z * Z * Z)) (c : Z), lens_nonneg segs ->
+  (forall lo hi len j, locate segs c = Some (lo, hi, len, j) ->
+     0 <= j < len /\ exists pre post, segs = pre ++ (lo, hi, len) :: post /\ c = seg_total pre + j)
+  /\ (c < 0 \/ seg_total segs <= c -> locate segs c = None).
+Proof. intros segs c H. split; [intros lo hi len j; apply locate_spec; assumption | apply locate_outside; assumption]. Qed.
+
+(* x.Random(r): the value moves by d with -(r/2) <= d < r - r/2, hence |d| <= r/2; r <= 0 changes
+   nothing and draws no number *)
+Theorem C16_random_width : forall seed val r : Z,
+  (0 <= seed < 2 ^ 32 -> 0 < r ->
+   let '(v, s') := calc_rand_value seed val r in
+   - (r / 2) <= v - val < r - r / 2 /\ Z.abs (v - val) <= r / 2 /\ s' = rand_next seed /\ 0 <= s' < 2 ^ 32)
+  /\ (r <= 0 -> calc_rand_value seed val r = (val, seed)).
+Proof. intros seed val r. split; [apply rand_value_width | apply rand_value_off]. Qed.
+
+(* the random numbers are a function of the seed alone: number i is the (i+1)-fold xorshift iterate *)
+Theorem C16_random_reproducible : forall (n : nat) (seed : Z) (i : nat),
+  (i < n)%nat -> nth i (rand_seq seed n) 0 = Nat.iter (S i) rand_next seed.
+Proof. exact rand_seq_iter. Qed.
+
+(* the generator stays inside the non-zero u32 values (so it never degenerates to the constant 0) *)
+Theorem C16_random_nonzero : forall seed : Z, 0 < seed < 2 ^ 32 -> 0 < rand_next seed < 2 ^ 32.
+Proof. exact rand_next_nonzero. Qed.
+
+(* ---- non-vacuity ---- *)
+Definition ex_onres0 := mkOnres None 0 false.
+Definition ex_track : track :=
+  mkTrack 96 2 100 90 0 5 (-1) None ex_onres0 ex_onres0 ex_onres0 ex_onres0 ex_onres0 4 [] [] [].
+
+Example C16_example_on_note :
+  let k := set_res WV ex_track (mkOnres (Some [10; 20; 30]) 0 false) in
+  get_res WV k = mkOnres (Some [10; 20; 30]) 0 false /\
+  fst (run_calls (calc_on_note WV) k [100; 100; 100; 100; 77]) = [10; 20; 30; 100; 77] /\
+  tr_velocity (snd (run_calls (calc_on_note WV) k [100; 100; 100; 100; 77])) = 30 /\
+  r_list (tr_v (snd (run_calls (calc_on_note WV) k [100; 100; 100; 100; 77]))) = None.
+Proof. repeat split. Qed.
+
+Example C16_example_on_cycle :
+  let k := set_res WL ex_track (mkOnres (Some [48; 24]) 0 true) in
+  fst (run_calls (calc_on_note WL) k [-1; -1; -1; -1; -1]) = [48; 24; 48; 24; 48] /\
+  snd (run_calls (calc_on_note WL) k [-1; -1; -1]) = set_res WL ex_track (mkOnres (Some [48; 24]) 1 true).
+Proof. repeat split. Qed.
+
+Example C16_example_cc_on_note :
+  let k := set_cc_on_note (set_cc_on_note ex_track 1 [1; 2; 3]) 7 [100]  in
+  all_at 0 (tr_cc_on_note k) /\
+  tr_events (run_cc_notes k [0; 96; 192; 288]) = [ev_cc 0 2 1 1; ev_cc 0 2 7 100; ev_cc 96 2 1 2; ev_cc 192 2 1 3] /\
+  tr_cc_on_note (run_cc_notes k [0; 96; 192; 288]) = [].
+Proof. split; [repeat constructor | split; reflexivity]. Qed.
+
+Example C16_example_ramp :
+  tr_events (write_cc_on_time ex_track 1 [0; 127; 8; 127; 0; 8]) =
+    [ev_cc 96 2 1 0; ev_cc 100 2 1 63; ev_cc 104 2 1 127; ev_cc 108 2 1 63] /\
+  ticks 4 8 = [0; 4] /\ seg_starts 96 [(0, 127, 8); (127, 0, 8)] = [96; 104] /\
+  (- RB <= 0 <= RB /\ - RB <= 127 - 0 <= RB /\ 0 < 8 <= RB) /\
+  map e_v1 (tr_events (write_pb_on_time ex_track 1 [-8192; 8191; 6] 96)) = [0; 8191].
+Proof. split; [reflexivity|]. split; [reflexivity|]. split; [reflexivity|]. split; [unfold RB; lia | reflexivity]. Qed.
+
+Example C16_example_v_on_time :
+  let k := set_timepos (set_v_on_time ex_track (Some [0; 127; 384; 127; 40; 192]) 96) 480 in
+  lens_nonneg (triples [0; 127; 384; 127; 40; 192]) /\
+  locate (triples [0; 127; 384; 127; 40; 192]) 384 = Some (127, 40, 192, 0) /\
+  calc_v_on_time k 100 = (127, k) /\
+  calc_v_on_time (set_timepos k 192) 100 = (31, set_timepos k 192) /\
+  calc_v_on_time (set_timepos k 672) 100 = (100, set_v_on_time (set_timepos k 672) None (-1)).
+Proof. split; [repeat constructor; cbn; lia | vm_compute; repeat split; reflexivity]. Qed.
+
+Example C16_example_random :
+  (0 <= 3958587042 < 2 ^ 32) /\
+  rand_values 3958587042 100 8 3 = [97; 96; 96] /\ calc_rand_value 3958587042 100 0 = (100, 3958587042).
+Proof. split; [lia|]. split; reflexivity. Qed.
+
 Print Assumptions C16_on_note.
+Print Assumptions C16_on_note_nth.
+Print Assumptions C16_on_cycle.
+Print Assumptions C16_cancel.
+Print Assumptions C16_arms.
+Print Assumptions C16_cc_on_note.
+Print Assumptions C16_cc_on_note_set.
+Print Assumptions C16_ramp_ticks.
+Print Assumptions C16_pb_ramp_ticks.
+Print Assumptions C16_ticks_exact.
+Print Assumptions C16_ramp_start.
+Print Assumptions C16_ramp_range.
+Print Assumptions C16_pb_ramp_range.
+Print Assumptions C16_v_on_time.
+Print Assumptions C16_v_on_time_locate.
+Print Assumptions C16_random_width.
+Print Assumptions C16_random_reproducible.
+Print Assumptions C16_random_nonzero.
